@@ -221,7 +221,7 @@ def replay(item: dict) -> dict:
             data.logLike -= 1.0
             with open(name, 'wb') as f:
                 pickle.dump(data, f)
-        loaded = bioResults(pickle_file=name, identification_threshold=1e-5)
+        loaded = bioResults(pickle_file=name, identification_threshold=rr.threshold_for(raw_build))
         # (1) the loaded object against the specification
         rr.compare_stats(c, loaded)
         rr.compare_tables(c, loaded)
